@@ -53,8 +53,13 @@ def source_blob_hashes(rel_files: list[str]) -> dict[str, str]:
 
 
 class _LakeLock:
+    """Serialises builds of the SAME target set (different properties build concurrently)."""
+
+    def __init__(self, key: str = ""):
+        self.key = re.sub(r"[^A-Za-z0-9]", "_", key)[:80]
+
     def __enter__(self):
-        self.f = open(LEAN / ".lake.lock", "w")
+        self.f = open(LEAN / f".lake.lock.{self.key}", "w")
         fcntl.flock(self.f, fcntl.LOCK_EX)
         return self
 
@@ -73,7 +78,7 @@ def write_if_changed(path: Path, text: str) -> bool:
 
 def lake_build(targets: list[str], timeout: int = 1800) -> tuple[bool, str]:
     """`lake build <targets>`; returns (ok, combined log)."""
-    with _LakeLock():
+    with _LakeLock(targets[0] if targets else ""):
         try:
             p = subprocess.run(
                 ["lake", "build", *targets],
